@@ -3,7 +3,8 @@
    tables that the harness filled by calling quill's own reader / contract / apply / extend
    on the real file contents (ids = equal canonical mapping sets).  The model then has to
    reproduce everything observable of VersionGraph: node order, names, depths, root,
-   adjacency in petgraph order, every lookup, and for every queried name the answer of
+   adjacency in petgraph order, every lookup, get_all of several name lists, get_diff of every
+   node pair (which edge file is read), and for every queried name the answer of
    apply_diffs must be one of the model's candidates (shortest paths).
    CInst cases: selected directories once more with their REAL contents, through the instantiated
    model of C05/Instance.v (no tables). *)
@@ -45,7 +46,10 @@ Record view := mkView {
   v_children : list (list N);             (* children(v), per node, in iteration order *)
   v_parents : list (list N);              (* parents(v) *)
   v_gets : list (N * option (N * N));     (* get(name): Split (0 None, 1 First, 2 Second), node *)
-  v_applies : list (N * res N) }.         (* get(name) then apply_diffs: id of the answer *)
+  v_applies : list (N * res N);           (* get(name) then apply_diffs: id of the answer *)
+  v_getalls : list (list N * res (list (N * N)));   (* get_all(names): the (Split, node) answers in order *)
+  v_diffids : ntbl;                       (* content token -> id of the diff it parses to *)
+  v_getdiffs : list (N * N * res (option N)) }.     (* get_diff(parent node, node): id of the diff read *)
 
 Inductive case :=
 | CDir (strs : list str) (d : list (N * N)) (wf : bool) (t : tables) (r : res view)
@@ -69,6 +73,20 @@ Definition get_eqb (strs : list str) (g : graph N N) (q : N * option (N * N)) : 
   end.
 Definition apply_ok (strs : list str) (t : tables) (g : graph N N) (q : N * res N) : bool :=
   existsb (fun c => res_eqb N.eqb c (snd q)) (candidates_by_name (tops t) g (sget strs (fst q))).
+
+Definition getall_eqb (strs : list str) (g : graph N N) (q : list N * res (list (N * N))) : bool :=
+  res_eqb (list_eqb (pair_eqb N.eqb N.eqb))
+    (match get_all g (map (sget strs) (fst q)) with
+     | Ok l => Ok (map (fun x => (split_code (fst x), N.of_nat (snd x))) l)
+     | Err => Err
+     end) (snd q).
+Definition getdiff_eqb (t : tables) (ids : ntbl) (g : graph N N) (q : N * N * res (option N)) : bool :=
+  match get_diff (tops t) g (N.to_nat (fst (fst q))) (N.to_nat (snd (fst q))), snd q with
+  | Ok None, Ok None => true
+  | Ok (Some c), Ok (Some i) => res_eqb N.eqb (nlookup c ids) (Ok i)
+  | Err, Err => true
+  | _, _ => false
+  end.
 
 Definition inst_ok (g : graph str mappings) (q : str * res mappings) : bool :=
   existsb (fun c => res_eqb equivb c (snd q)) (candidates_by_name FB.C05.Instance.vg_ops g (fst q)).
@@ -96,6 +114,8 @@ Definition check (c : case) : bool :=
           && list_eqb lN_eqb (map (fun i => nn (preds (g_edges g) i)) idx) (v_parents v)
           && forallb (get_eqb strs g) (v_gets v)
           && forallb (apply_ok strs t g) (v_applies v)
+          && forallb (getall_eqb strs g) (v_getalls v)
+          && forallb (getdiff_eqb t (v_diffids v) g) (v_getdiffs v)
       | _, _ => false
       end
   end.
